@@ -71,6 +71,29 @@ Proof.
   rewrite nth_upd_other by auto. exact N1.
 Qed.
 
+(* scrolling the window by one row shifts the view on the virtual page by one *)
+Lemma shifted_scroll_up (cs cs0 : list (list Z)) (g : vgrid) H W T B K : shape cs H W -> 1 <= T <= B -> B < H ->
+  (forall R C, 1 <= R <= H -> 1 <= C <= W ->
+     get_cell cs R C = if (T <=? R) && (R <=? B) then g (R + K) C else get_cell cs0 R C) ->
+  (forall C, g (B + K + 1) C = 32) ->
+  forall R C, 1 <= R <= H -> 1 <= C <= W ->
+    get_cell (scroll_up_l W cs T B) R C =
+      if (T <=? R) && (R <=? B) then g (R + (K + 1)) C else get_cell cs0 R C.
+Proof.
+  intros Hsh HT HB Hc Hb R C HR HC.
+  rewrite (get_scroll_up cs H W) by (try apply Hsh; lia).
+  destruct ((T <=? R) && (R <? B)) eqn:E1.
+  - rewrite (Hc (R + 1) C) by lia.
+    replace ((T <=? R + 1) && (R + 1 <=? B)) with true by lia.
+    replace ((T <=? R) && (R <=? B)) with true by lia.
+    replace (R + 1 + K) with (R + (K + 1)) by lia. reflexivity.
+  - destruct (R =? B) eqn:E2.
+    + assert (R = B) by lia. subst R.
+      replace ((T <=? B) && (B <=? B)) with true by lia.
+      replace (B + (K + 1)) with (B + K + 1) by lia. symmetry. apply Hb.
+    + rewrite (Hc R C HR HC). replace ((T <=? R) && (R <=? B)) with false by lia. reflexivity.
+Qed.
+
 Section Placement.
 Variable s0 : st.
 Variable fl : Z -> bool.
@@ -177,32 +200,27 @@ Proof.
                          /\ cells s5 = scroll_up_l W (cells s3) T B).
            { unfold s5, b_scroll_up. setters. proj. rewrite A4, A6, A7, A11. repeat split; auto; apply A9. }
            destruct F5' as (D1 & D2 & D3 & D4 & D5 & D6 & D7 & D8 & D9 & D10).
-           assert (KK : Z.max 0 (vr + 1 - B) = Z.max 0 (vr - B) + 1) by lia.
+           assert (HvB : vr = B + Z.max 0 (vr - B)) by (clear - Hrow Hrb; lia).
+           assert (KK : Z.max 0 (vr + 1 - B) = Z.max 0 (vr - B) + 1) by (clear - HvB; lia).
            assert (WS5 : wraps_at s5 B = false).
            { change (wraps_at (b_scroll_up s4 (top s4) (bot s4)) B = false).
-             rewrite A6, A7. apply wraps_scroll_up_bottom; try lia.
-             rewrite A5, A10. exact Hwl. }
+             rewrite A6, A7. apply wraps_scroll_up_bottom; [rewrite A5, A10; exact Hwl | clear - G3 G4; lia | rewrite A5; exact G5]. }
            assert (Hsh3 : shape (cells s3) H W) by (rewrite F11; apply shape_put; auto).
            clearbody s5 s4 s3.
-           constructor; auto.
-           ++ lia.
-           ++ left. lia.
+           constructor.
+           ++ exact D9.
+           ++ exact P5.
+           ++ exact D1.
+           ++ clear - D7 HvB KK G4. lia.
+           ++ left. split; [clear - G2; lia | auto].
            ++ rewrite KK. intros R C HR HC. rewrite D10.
-              rewrite (get_scroll_up (cells s3) H W) by (try apply Hsh3; lia). fold T B.
-              destruct ((T <=? R) && (R <=? B)) eqn:EW1.
-              ** destruct ((T <=? R) && (R <? B)) eqn:EW2.
-                 --- rewrite (C3 (R + 1) C) by lia. fold T B.
-                     replace ((T <=? R + 1) && (R + 1 <=? B)) with true by lia.
-                     replace (R + (Z.max 0 (vr - B) + 1)) with (R + 1 + Z.max 0 (vr - B)) by lia. reflexivity.
-                 --- replace (R =? B) with true by lia.
-                     replace (R + (Z.max 0 (vr - B) + 1) =? vr) with false by lia. cbn [andb].
-                     symmetry. apply Hbelow. lia.
-              ** replace ((T <=? R) && (R <? B)) with false by lia.
-                 replace (R =? B) with false by lia.
-                 rewrite (C3 R C HR HC). fold T B. rewrite EW1. reflexivity.
-           ++ intros r c Hr. apply B3. lia.
-           ++ intros r Hr _. rewrite D7 in Hr. assert (r = B) by lia. subst r.
-              rewrite Hfl by lia. exact WS5.
+              apply (shifted_scroll_up (cells s3) (cells s0) (fun r c => if (r =? vr) && (c =? vc) then ch else g r c)
+                       H W T B (Z.max 0 (vr - B))); auto.
+              ** clear - G3 G4. lia.
+              ** intros C'. apply B3. clear - HvB. lia.
+           ++ intros r c Hr. apply B3. clear - Hr. lia.
+           ++ intros r Hr _. assert (r = B) by (clear - Hr D7; lia). subst r.
+              rewrite Hfl by (clear - HvB; lia). exact WS5.
       * (* no flag: pending overflow *)
         rewrite wrap_scroll_noop by (setters; proj; try lia; auto).
         constructor.
